@@ -368,6 +368,30 @@ def sig_hit(mod: Any, kfs: list[KnownFinding], case: Any, f: Failure) -> str | N
     matches the whole case and the property module allows it (DECOMPOSE_KEY = name of the document text in the case), the
     document is split into independent top-level chunks: the failure counts as known if at least one chunk fails on its
     own and every failing chunk matches a signature (several recorded findings in one document)."""
+    hit = _sig_hit_chunks(mod, kfs, case, f)
+    variants = getattr(mod, "OPTION_VARIANTS", None)
+    if hit or variants is None:
+        return hit
+    # Two recorded findings in ONE paragraph, each needing a different option (say, smart quotes and semantic breaks):
+    # with either option off the case must pass or show a recorded finding, and at least one variant must show one.
+    slugs = []
+    for sub in variants(case):
+        try:
+            f2 = mod.check_case(sub, Note())
+        except HarnessError:
+            raise
+        except Exception:  # noqa: BLE001
+            return None
+        if f2 is None:
+            continue
+        h2 = _sig_hit_chunks(mod, kfs, sub, f2)
+        if h2 is None:
+            return None
+        slugs.append(h2)
+    return slugs[0] if len(slugs) >= 2 else None
+
+
+def _sig_hit_chunks(mod: Any, kfs: list[KnownFinding], case: Any, f: Failure) -> str | None:
     hit = _sig_hit_direct(mod, kfs, case, f)
     keys = getattr(mod, "DECOMPOSE_KEY", None)
     if hit or not keys or not isinstance(case, dict):
